@@ -1291,7 +1291,32 @@ class RunShape:
             return True
         return isinstance(v, ast.Attribute) and v.attr == "result" and self.is_inner(v.value)
 
+    def _resumer_methods(self) -> Set[str]:
+        """methods of Deferred of the form `def m(self, r): self.result = r; self.unpause()` - a continuation as an ordinary callback"""
+        if getattr(self, "_resumers", None) is None:
+            out = set()
+            cls = self.ctx.mod(DEFER).find("Deferred")
+            for m in (cls.body if isinstance(cls, ast.ClassDef) else []):
+                if isinstance(m, ast.FunctionDef) and len(m.args.args) == 2:
+                    p = m.args.args[1].arg
+                    stores = any(isinstance(st, ast.Assign) and any(attr_of(t, "result", "self") and is_name(v, p) for t, v in targets_values(st)) for st in ast.walk(m))
+                    unp = any(isinstance(x, ast.Call) and method_call(x, "unpause", "self") for x in ast.walk(m))
+                    if stores and unp:
+                        out.add(m.name)
+            self._resumers = out
+        return self._resumers
+
+    def reg_is_api(self, c: ast.Call) -> bool:
+        """`<inner>.addBoth(<cur>.<resumer>)`: waiting arranged through the public API (same results and per-Deferred order; re-entrant - a C02 matter)"""
+        if not (isinstance(c.func, ast.Attribute) and c.func.attr in ("addBoth", "addCallbacks") and c.args):
+            return False
+        fns = c.args[:1] if c.func.attr == "addBoth" else c.args[:2]
+        return len(fns) == (1 if c.func.attr == "addBoth" else 2) and all(
+            isinstance(a, ast.Attribute) and is_name(a.value, self.cur) and a.attr in self._resumer_methods() for a in fns)
+
     def _is_reg(self, c: ast.Call) -> bool:
+        if self.reg_is_api(c):
+            return True
         if not (isinstance(c.func, ast.Attribute) and c.func.attr in ("append", "appendleft", "insert", "extend")):
             return False
         tgt = c.func.value
@@ -1350,6 +1375,7 @@ class ChainWalk:
         self.stack_var: Optional[str] = cands[0] if len(cands) == 1 else None
         self.ambiguous = len(cands) > 1
         self.transitions: List[Tuple[str, tuple, Optional[str], bool, List[int]]] = []   # (kind, L', cur', at_exit, path)
+        self.queued: List[bool] = []      # per transition: did the waiting Deferred become a work item of the loop (anywhere in the worklist)?
         self.lifo_bad: List[int] = []
         self.checkpoint: Optional[int] = None
         self.mode: Optional[str] = None
@@ -1387,6 +1413,7 @@ class ChainWalk:
             cur = dict(env).get(self.cur)
             L = phys if self.mode == "peek" else (phys + ((cur,) if not at_exit else ()))
             self.transitions.append((kind, L, cur, at_exit, path))
+            self.queued.append(bool(dict(env).get("#W")) or "W" in L or cur == "W")
 
     # -- symbolic evaluation ---------------------------------------------------------------------
     def _materialise(self, phys, fresh):
@@ -1517,6 +1544,18 @@ class ChainWalk:
             if m == "append" and len(c.args) == 1:
                 v, phys, fresh = self._val(c.args[0], phys, env, fresh, nid)
                 phys = phys + (v,)
+                if v == "W":
+                    env["#W"] = True
+            elif m == "insert" and len(c.args) == 2:
+                v, phys, fresh = self._val(c.args[1], phys, env, fresh, nid)
+                if v == "W":
+                    env["#W"] = True          # the waiting Deferred is in the worklist, wherever (its position is C01's business)
+                if const_int(c.args[0]) == -1:
+                    phys, fresh = self._materialise(phys, fresh)
+                    phys = (phys[:-1] + (v, phys[-1])) if phys else (v,)
+                else:
+                    self.lifo_bad.append(nid)
+                    phys = ("?",)
             elif m == "pop" and (not c.args or const_int(c.args[0]) == -1):
                 phys, fresh = self._materialise(phys, fresh)
                 phys = phys[:-1] if phys else phys
@@ -1620,6 +1659,17 @@ class ChainWalk:
         return None, phys, fresh
 
     # -- verdicts --------------------------------------------------------------------------------
+    def handover_worklist(self):
+        """[(ok, observed, path)] for the hand-over rounds, judged for *iteration only*: the waiting Deferred became a work item of the
+        same loop (top of the stack, elsewhere in it, or the cursor) and the frame goes on - its position is not judged here"""
+        out = []
+        for (kind, L, cur, at_exit, path), q_ in zip(self.transitions, self.queued):
+            if kind.startswith("handover"):
+                obs = ("the walk ends" if at_exit else "the loop goes on") + (" with the waiting Deferred among its work items" if q_ else
+                                                                              " without the waiting Deferred among its work items")
+                out.append((q_ and not at_exit, obs, path))
+        return out
+
     def verdicts(self):
         """[(kind, ok, observed description, witness path)] for every recorded transition"""
         out = []
